@@ -136,6 +136,9 @@ func historySeq(l *mc.Local, menu []hsym, fresh []*gozxing.BitMatrix, seq []int)
 	var kept, keptCopy []*gozxing.BitMatrix
 	for step, k := range seq {
 		s := menu[k]
+		if step%2 == 1 {
+			mc.Guard(func() { rd.Reset() }) // the documented call between uses of one reader object
+		}
 		if s.Family == "foreign" {
 			padded, bare := foreignSymbol()
 			var ftext string
@@ -290,7 +293,7 @@ func runHistory() {
 			}
 		}
 	}
-	chk.Range(fmt.Sprintf("(d) object histories: ALL sequences of 1..3 (write, pure-barcode read, matrix decode) steps over a menu of %d symbols (versions 1,2,7,10%s; all modes, levels, several masks and requested sizes) on ONE QRCodeWriter, ONE QRCodeReader and ONE decoder.Decoder; every step must read back its own text, give the fresh writer's image, and leave earlier images unchanged", n, map[bool]string{true: "", false: ",27,40"}[chk.Quick()]),
+	chk.Range(fmt.Sprintf("(d) object histories: ALL sequences of 1..3 (write, pure-barcode read, matrix decode) steps over a menu of %d symbols (versions 1,2,7,10%s; all modes, levels, several masks and requested sizes) on ONE QRCodeWriter, ONE QRCodeReader (Reset() before every second step) and ONE decoder.Decoder; every step must read back its own text, give the fresh writer's image, and leave earlier images unchanged", n, map[bool]string{true: "", false: ",27,40"}[chk.Quick()]),
 		len(seqs),
 		func(i int) string { return fmt.Sprint(seqs[i]) },
 		func(l *mc.Local, i int) { historySeq(l, menu, fresh, seqs[i]) })
